@@ -7,6 +7,7 @@ CONSTANTS
   Strict = FALSE
   MaxFaults = 100
   MaxDml = 100
+  EarlyP2 = TRUE
   MaxP2 = 100
   MaxCmds = 1000
 CONSTRAINT HighWater
